@@ -198,7 +198,7 @@ func (cc *convertCtx) runMiniBatch(g *Gen, mb *miniBatch) {
 			r.Sample(map[string]interface{}{"phase": "convert", "metric": m, "limits": mb.env.Lim.Profile, "proto_accepted": results[fmtProto][i].accepted,
 				"flat_accepted": results[fmtFlat][i].accepted})
 		}
-		neutral := m.NilTag < 0 && m.NilField < 0 && !m.FlatOmitName && m.FlatPad == 0 && len(mb.flatIn[i]) <= 10*1024 &&
+		neutral := m.NilTag < 0 && m.NilField < 0 && !m.FlatOmitName && m.FlatPad == 0 && len(mb.flatIn[i]) <= 10*1024 && !lineTSNotDecimal(m.LineTSForm) &&
 			(m.NS == "" || (m.NS == mb.env.ReqNS))
 		if !neutral || hasConflictingDuplicates(m, mb.env) || judge(m, mb.env, fmtProto, 0).Status == stInvalid {
 			continue // (an invalid metric that one path accepts is reported by that path's oracle)
